@@ -164,6 +164,70 @@ pub mod emap {
         { unimplemented!() }
     }
 
+    // ---- std `Iterator::filter(..).map(..).collect::<Vec<_>>()` as instantiated for this iterator ----
+    // (inherent methods on shim types, so that the chain can carry contracts over the closures' own contracts)
+    #[verifier::external_body]
+    #[verifier::accept_recursive_types(V)]
+    #[verifier::accept_recursive_types(P)]
+    pub struct Filter<'a, V, P> { p: PhantomData<(&'a V, P)> }
+
+    #[verifier::external_body]
+    #[verifier::accept_recursive_types(V)]
+    #[verifier::accept_recursive_types(P)]
+    #[verifier::accept_recursive_types(F)]
+    pub struct FilterMap<'a, V, P, F> { p: PhantomData<(&'a V, P, F)> }
+
+    impl<'a, V, P> Filter<'a, V, P> {
+        pub uninterp spec fn src(&self) -> Seq<Option<V>>;
+        pub uninterp spec fn pred(&self) -> P;
+    }
+    impl<'a, V, P, F> FilterMap<'a, V, P, F> {
+        pub uninterp spec fn src(&self) -> Seq<Option<V>>;
+        pub uninterp spec fn pred(&self) -> P;
+        pub uninterp spec fn f(&self) -> F;
+        /// the positions the filter lets through, in iteration order (a Skolem function of the chain)
+        pub uninterp spec fn picked(&self) -> Seq<int>;
+    }
+
+    impl<'a, V: Clone + 'a> Iter<'a, V> {
+        #[verifier::external_body]
+        pub fn filter<P: FnMut(&(usize, &'a V)) -> bool>(self, pred: P) -> (r: Filter<'a, V, P>)
+            requires
+                self.pos() == 0,
+                forall|i: int| 0 <= i < self.src().len() ==> (#[trigger] self.src()[i]).is_some(),
+                forall|i: int| 0 <= i < self.src().len() ==> pred.requires((&(i as usize, &(#[trigger] self.src()[i]).unwrap()),)),
+            ensures r.src() == self.src(), r.pred() == pred,
+        { unimplemented!() }
+    }
+
+    impl<'a, V: Clone + 'a, P: FnMut(&(usize, &'a V)) -> bool> Filter<'a, V, P> {
+        #[verifier::external_body]
+        pub fn map<B, F: FnMut((usize, &'a V)) -> B>(self, f: F) -> (r: FilterMap<'a, V, P, F>)
+            requires
+                forall|i: int| 0 <= i < self.src().len() ==> f.requires(((i as usize, &(#[trigger] self.src()[i]).unwrap()),)),
+            ensures r.src() == self.src(), r.pred() == self.pred(), r.f() == f,
+        { unimplemented!() }
+    }
+
+    impl<'a, V: Clone + 'a, P: FnMut(&(usize, &'a V)) -> bool, F: FnMut((usize, &'a V)) -> usize> FilterMap<'a, V, P, F> {
+        /// the result lists f(element) for exactly the elements the predicate accepts, in iteration order
+        #[verifier::external_body]
+        pub fn collect<C>(self) -> (r: Vec<usize>)
+            ensures
+                r@.len() == self.picked().len(),
+                forall|k: int| 0 <= k < self.picked().len() ==> 0 <= (#[trigger] self.picked()[k]) < self.src().len(),
+                forall|k: int, l: int| 0 <= k < l < self.picked().len() ==> self.picked()[k] < self.picked()[l],
+                forall|k: int| #![trigger self.picked()[k]] #![trigger r@[k]] 0 <= k < self.picked().len() ==> {
+                    let i = self.picked()[k];
+                    &&& 0 <= i < self.src().len()
+                    &&& self.pred().ensures((&(i as usize, &self.src()[i].unwrap()),), true)
+                    &&& self.f().ensures(((i as usize, &self.src()[i].unwrap()),), r@[k])
+                },
+                forall|i: int| 0 <= i < self.src().len() && !self.picked().contains(i) ==>
+                    self.pred().ensures((&(i as usize, &(#[trigger] self.src()[i]).unwrap()),), false),
+        { unimplemented!() }
+    }
+
     impl<'a, V: Clone + 'a> Iterator for Iter<'a, V> {
         type Item = (usize, &'a V);
         #[verifier::external_body]
